@@ -361,6 +361,12 @@ inductive Kind where
 
 def pad8 (n : Nat) : Nat := (n + 7) / 8 * 8
 
+/-- since fix ae34483 every adapter that hands BitsStored down as the sample depth (all but RLE and HTJ2K)
+    rejects, in Encode and in Decode, a frame whose BitsStored and BitsAllocated need different bytes per sample -/
+def layoutOK (i : Info) : Prop := (i.bs + 7) / 8 = (i.ba + 7) / 8
+
+instance (i : Info) : Decidable (layoutOK i) := by unfold layoutOK; exact inferInstance
+
 /-- Code-shaped model of Encode→Decode through each adapter (`none` = the adapter rejects the frame):
     * rle/rle.go encodeFrame/decodeFrame: bytesAllocated = (BitsAllocated-1)/8+1, odd lengths padded;
     * jpeg/baseline/codec.go: BitsStored > 8 rejected; Encode(frame, w, h, spp, quality) reads one byte per
@@ -378,15 +384,15 @@ def pad8 (n : Nat) : Nat := (n + 7) / 8 * 8
 def decodedLen (k : Kind) (i : Info) : Option Nat :=
   match k with
   | .rle => let n := i.w * i.h * i.spp * ((i.ba - 1) / 8 + 1); some (n + n % 2)
-  | .baseline => if i.bs > 8 then none else some (i.w * i.h * i.spp)
+  | .baseline => if i.bs > 8 ∨ ¬ layoutOK i then none else some (i.w * i.h * i.spp)
   | .extended =>
-    if i.bs > 12 then none
+    if i.bs > 12 ∨ ¬ layoutOK i then none
     else if i.bs ≤ 8 then
       (if i.spp = 1 then some (i.w * i.h) else some (i.w * i.h * 3))
     else (if i.spp = 1 then some (i.w * i.h * 2) else none)
-  | .jpegll => some (i.w * i.h * i.spp * ((i.bs + 7) / 8))
-  | .jls => if i.bs < 2 ∨ i.bs > 16 then none else some (i.w * i.h * i.spp * (if i.bs ≤ 8 then 1 else 2))
-  | .j2k => some (i.w * i.h * i.spp * (if i.bs ≤ 8 then 1 else 2))
+  | .jpegll => if ¬ layoutOK i then none else some (i.w * i.h * i.spp * ((i.bs + 7) / 8))
+  | .jls => if i.bs < 2 ∨ i.bs > 16 ∨ ¬ layoutOK i then none else some (i.w * i.h * i.spp * (if i.bs ≤ 8 then 1 else 2))
+  | .j2k => if ¬ layoutOK i then none else some (i.w * i.h * i.spp * (if i.bs ≤ 8 then 1 else 2))
   | .htj2k => some (i.w * i.h * i.spp * (if i.ba ≤ 8 then 1 else 2))
 
 /-- the property's quantifier: BitsAllocated ∈ {8,16}, 1 < BitsStored ≤ BitsAllocated, Samples ∈ {1,3} -/
